@@ -213,7 +213,7 @@ fn w_res(l: &mut Line, r: &Result<(Vec<String>, Vec<String>), ()>, n: usize) {
 pub fn run(ctx: &mut Ctx) {
     let mut r = ctx.rng.fork();
     let db = Database::load_default().expect("bundled database");
-    let ntr = ctx.n(30, 400);
+    let ntr = ctx.n(30, 4000);
     for _ in 0..ntr {
         let trace = build_trace(&mut r);
         for with_db in [false, true] {
